@@ -200,10 +200,11 @@ def st_filter_kwargs(draw, band, allow_none=True):
         # filter length may ride along
         extras = draw(st.sampled_from([{'filter_type': 'fir'}, {'print_transitions': False}, {'plot_properties': False},
                                        {'filter_type': 'fir', 'print_transitions': False}]))
+    spell_none = draw(st.integers(0, 7)) == 0       # the unused one of the two length keys spelled out as None (config objects do that)
     if kind == 'n_cycles':
-        return dict({'n_cycles': draw(st.sampled_from([0.5, 1, 1, 1.25, 2, 3, 3, 4, 5, 7]))}, **extras)      # very short (even fractional) kernels included
+        return dict({'n_cycles': draw(st.sampled_from([0.5, 1, 1, 1.25, 2, 3, 3, 4, 5, 7]))}, **dict(extras, **({'n_seconds': None} if spell_none else {})))      # very short (even fractional) kernels included
     m = draw(st.one_of(st.sampled_from([1.0, 2.0, 3.0, 4.5]), _f(1.0, 6.0)))
-    return dict({'n_seconds': m / f_lo}, **extras)
+    return dict({'n_seconds': m / f_lo}, **dict(extras, **({'n_cycles': None} if spell_none else {})))
 
 
 def filt_len_of(band, fk):
